@@ -11,7 +11,7 @@ import time
 
 import t2lib as T
 
-ENDINGS = ["app_closes_first", "target_closes_first", "app_resets", "target_resets", "target_refused", "target_unresolvable"]
+ENDINGS = ["app_closes_first", "target_closes_first", "target_closes_app_lingers", "app_resets", "target_resets", "target_refused", "target_unresolvable"]
 FD_WAIT = 5.0
 
 
@@ -74,6 +74,35 @@ def flow_scripted(dep, ending, seed, label, deadline):
             "app_received": len(o["app_received"]), "app_end": o["app_end"], "target_end": o["target_end"], "errors": o["errors"][:3],
             "seconds": o["seconds"]}
     return (not problems), "; ".join(problems), summ
+
+
+def flow_linger(dep, ending, seed, label, deadline, held):
+    """the target answers and closes; the application reads the answer and the end-of-stream but keeps ITS socket open (an idle
+    pooled connection): the flow is over all the same - client and server must release it (the caller counts descriptors
+    while the sockets in `held` are still open, and closes them afterwards)"""
+    a1, b1 = _sb(seed, label + "/a1", 3000), _sb(seed, label + "/b1", 30000)
+    problems = []
+    with T.TcpTarget() as tgt:
+        s, reply, ok, prefix = T.open_app(dep, "socks5_ipv4", tgt.addr, timeout=deadline)
+        held.append(s)
+        if not ok:
+            return False, "local handshake failed: %r" % (reply[:40],), {}
+        app = T.Conn(s, name="app-linger")
+        app.send(a1, deadline)
+        tconn = tgt.wait_conn(0, deadline)
+        if tconn is None:
+            return False, "target got no connection", {}
+        tconn.wait_len(len(a1), deadline)
+        tconn.send(b1, deadline)
+        tconn.close()
+        app.wait_len(len(b1), deadline)
+        end = app.wait_end(deadline)
+        got = app.received()
+        if got != b1:
+            problems.append("app received %d of the %d bytes the target wrote before closing" % (len(got), len(b1)))
+        if end != "eof":
+            problems.append("app saw %s instead of EOF within %.0f s after the target closed" % (end, deadline))
+    return (not problems), "; ".join(problems), {"app_received": len(got), "app_end": end, "app_keeps_its_socket_open": True}
 
 
 def flow_unreachable(dep, ending, seed, label, deadline):
@@ -212,6 +241,7 @@ def run_scenario(name, cfg, ending, n, seed):
     expect = {"property": "closing or failing one side tears the whole flow down and frees it", "ending": ending, "concurrent_flows": n,
               "per_flow": {"app_closes_first": "target receives every byte written before the close, then EOF",
                            "target_closes_first": "app receives the complete answer, then EOF",
+                           "target_closes_app_lingers": "app receives the complete answer, then EOF; it keeps its own socket open while the descriptors are counted",
                            "app_resets": "target sees EOF or RST", "target_resets": "app sees EOF or RST",
                            "target_refused": "app sees EOF or RST", "target_unresolvable": "app sees EOF or RST",
                            "link_cut": "app AND target see EOF or RST"}[ending] + " within %.0f s" % deadline,
@@ -228,6 +258,7 @@ def run_scenario(name, cfg, ending, n, seed):
             if fwd is not None:
                 fwd.set_upstream((T.LOOPBACK, dep.server_port))
             observed = {}
+            held = []
             warm = T.probe_tcp(dep, deadline=deadline)
             if not warm["relayed"]:
                 observed.update(T.process_state(dep))
@@ -255,6 +286,8 @@ def run_scenario(name, cfg, ending, n, seed):
             else:
                 flows = [None] * n
                 fn = flow_unreachable if ending in ("target_refused", "target_unresolvable") else flow_scripted
+                if ending == "target_closes_app_lingers":
+                    fn = lambda dep, ending, seed, label, deadline: flow_linger(dep, ending, seed, label, deadline, held)   # noqa: E731
 
                 def one(i):
                     try:
@@ -271,6 +304,11 @@ def run_scenario(name, cfg, ending, n, seed):
             smp.join(1.0)
             peak = {"client": dep.fd_count("client"), "server": dep.fd_count("server")}
             back, now, secs = _wait_baseline(dep, base, FD_WAIT)
+            for hs in held:
+                try:
+                    hs.close()
+                except OSError:
+                    pass
             problems = []
             bad = [(i, f) for i, f in enumerate(flows) if not f[0]]
             for i, f in bad[:4]:
